@@ -36,6 +36,14 @@ impl ConnIdMapper {
         self.right[usize::from(id)]
     }
 
+    /// Returns the mapper equivalent to applying `self` and then `next`.
+    pub fn compose(&self, next: &Self) -> Self {
+        Self::new(
+            self.left.iter().map(|&id| next.left(id)).collect(),
+            self.right.iter().map(|&id| next.right(id)).collect(),
+        )
+    }
+
     pub fn from_iter<L, R>(lmap: L, rmap: R) -> Result<Self>
     where
         L: IntoIterator<Item = u16>,
